@@ -114,9 +114,15 @@ URLS = ["http://example.com/trunk", "bzr+ssh://host/~user/project/branch-name", 
         "http://h/" + "a" * 70, "http://h/" + "long-" * 30, "sftp://h/\u00e9/\u4e2d", ""]
 
 
-def _text_line(rng, lo, hi):
-    """a line whose length and break characters sit near the wrap constants (68 / last 20 / index 3)"""
+URLS_PLAIN = [u for u in URLS if "\\" not in u]
+
+
+def _text_line(rng, lo, hi, odd=True):
+    """a line whose length and break characters sit near the wrap constants (68 / last 20 / index 3);
+    odd=False keeps CR and backslash (the known-finding classes) out"""
     mode = rng.randrange(6)
+    if not odd:
+        return _text_line(rng, lo, hi).replace("\r", "r").replace("\\", "b")
     n = rng.randint(lo, hi)
     if mode == 0:
         return "".join(rng.choice("ab") for _ in range(n))
@@ -140,7 +146,7 @@ def _text_line(rng, lo, hi):
     return "".join(rng.choice(["\u00e9", "\u4e2d", "a", " ", "\U0001f600", "e\u0301"]) for _ in range(n // 2))
 
 
-def _message(rng):
+def _message(rng, odd=True):
     r = rng.random()
     if r < 0.08:
         return None
@@ -150,18 +156,18 @@ def _message(rng):
     lines = []
     for _ in range(nl):
         lo, hi = rng.choice([(0, 12), (40, 75), (55, 62), (120, 150), (60, 70)])
-        lines.append(_text_line(rng, lo, hi))
+        lines.append(_text_line(rng, lo, hi, odd))
     return "\n".join(lines)
 
 
 def _tz(rng):
     r = rng.random()
-    if r < 0.55:
+    if r < 0.7:
         return rng.choice([0, 3600, -3600, 19800, 20700, 34200, 50400, -18000, -28800, -43200, 45900])
-    if r < 0.75:
+    if r < 0.76:
         return rng.choice([-12600, -34200, -1800, -9000, -900, -86340])
-    if r < 0.85:
-        return rng.randrange(-86340, 86400, 60)
+    if r < 0.88:
+        return rng.choice([rng.randrange(0, 86400, 60), rng.randrange(-82800, 1, 3600)])
     return rng.choice([30, -90, 59, 86400, -86400, 90000, 360000, 1])
 
 
@@ -189,9 +195,9 @@ def _patch(rng):
         parts.append(rng.choice([b"+line", b"-line ", b" ctx\t", b"@@ -1 +1 @@", b"\xff\x00bin", b"# Begin patch", b"# Begin bundl",
                                  b"#", b"", b"+caf\xc3\xa9", b"x" * 70, b"  ", b"\\ No newline at end of file"]))
         parts.append(rng.choice([b"\n", b"\n", b"\n", b"\r\n", b"\r", b" \n"]))
-    if rng.random() < 0.15:
-        parts.pop()
     if rng.random() < 0.06:
+        parts.pop()
+    if rng.random() < 0.04:
         parts.insert(rng.randrange(len(parts) + 1), rng.choice([b"# Begin bundle\n", b"\n# Begin bundle junk\n"]))
     return b"".join(parts)
 
@@ -209,15 +215,16 @@ def _bundle(rng):
 
 
 def _gen_dir(rng):
-    ns = 0 if rng.random() < 0.9 else rng.choice([250000000, 500000000, 750000000])   # exact in a double
+    odd = rng.random() < 0.12
+    ns = 0 if rng.random() < 0.96 else rng.choice([250000000, 500000000, 750000000])   # exact in a double
     rid = rng.choice([b"joe@example.com-20240102030405-abcdef", b"r1", b"svn-v4:uuid:trunk/sub:12", "r\u00e9v-1".encode(),
                       b"null:", b"a b", b"x" * 80])
-    source = rng.choice(URLS) if rng.random() < 0.7 else None
+    source = rng.choice(URLS if odd else URLS_PLAIN) if rng.random() < 0.7 else None
     bundle = _bundle(rng)
     if source is None and bundle is None and rng.random() < 0.9:
         source = "http://example.com/feature"
     return _dir(rid=rid, sha=rng.choice([None, "0123456789abcdef0123456789abcdef01234567", "", "zz"]),
-                t=_time(rng), ns=ns, tz=_tz(rng), target=rng.choice(URLS), source=source, msg=_message(rng),
+                t=_time(rng), ns=ns, tz=_tz(rng), target=rng.choice(URLS if odd else URLS_PLAIN), source=source, msg=_message(rng, odd),
                 base=rng.choice([b"null:", b"joe@example.com-20231231235959-fedcba", "b\u00e4se".encode(), b"y" * 75]),
                 patch=_patch(rng), bundle=bundle)
 
@@ -481,6 +488,9 @@ def _date_domain(s, o):
     return o % 60 == 0 and abs(o) < 86400 and s != 0 and s + o >= 0 and s + o <= 253402300799
 
 
+FIELDS = ["rid", "sha", "t", "ns", "tz", "target", "source", "msg", "base", "patch", "bundle"]
+
+
 def _expect_dir(d):
     return [d["rid"], None if d["sha"] is None else d["sha"].encode(), d["t"], d["ns"], d["tz"], _u(d["target"]),
             None if d["source"] is None else _u(d["source"]), None if d["msg"] is None else _u(d["msg"]),
@@ -497,6 +507,105 @@ def _in_domain(d):
 
 def _strip_ws(b):
     return bytes(c for c in b if c not in (10, 13, 32))
+
+
+# ---- a mirror of rio_patch's wrapping, used ONLY to recognise the backslash finding exactly ----
+def _rfind_tail(part, ch):
+    return part.rfind(ch, -20)
+
+
+def _pieces(line):
+    """the partlines to_patch_lines cuts the (backslash-escaped) line into"""
+    out = []
+    while line:
+        part, line = line[:68], line[68:]
+        if line:
+            bi = _rfind_tail(part, b" ")
+            if bi < 3:
+                bi = _rfind_tail(part, b"-") + 1
+            if bi < 3:
+                bi = _rfind_tail(part, b"/")
+            if bi >= 3:
+                line = part[bi:] + line
+                part = part[:bi]
+        if line:
+            line = b"  " + line
+        out.append(part)
+    return out
+
+
+def _tagged(d):
+    out = [("revision_id", d["rid"].decode("utf-8")), ("target_branch", d["target"]),
+           ("base_revision_id", d["base"].decode("utf-8"))]
+    for key, tag in (("sha", "testament_sha1"), ("source", "source_branch"), ("msg", "message")):
+        if d[key] is not None:
+            out.append((tag, d[key]))
+    return out
+
+
+def _backslash_split(tagged):
+    """some wrap point falls between the two halves of an escaped backslash"""
+    for tag, v in tagged:
+        for i, line in enumerate(v.split("\n")):
+            body = (((tag + ": ") if i == 0 else "\t") + line).encode("utf-8").replace(b"\\", b"\\\\")
+            for part in _pieces(body)[:-1]:
+                if (len(part) - len(part.rstrip(b"\\"))) % 2 == 1:
+                    return True
+    return False
+
+
+def _cr_stripped(v):
+    return None if v is None else b"\n".join(l.rstrip(b"\r") for l in v.split(b"\n"))
+
+
+def _marker_ambiguous(d, from_file):
+    p = d["patch"]
+    if p is None:
+        return False
+    if any(l.startswith(b"# Begin bundle") for l in p.splitlines(True)):
+        return True
+    # read back from a file: the marker (if any) must start a line
+    return from_file and d["bundle"] is not None and not (p == b"" or p.endswith(b"\n"))
+
+
+def _explain(d, got, from_file):
+    """(set of finding ids that explain every difference between got and the directive d) or None
+    when some difference has no explanation"""
+    want = _expect_dir(d)
+    used = set()
+    if isinstance(got, Err):
+        if str(got) == "ValueError" and _backslash_split(_tagged(d)):
+            return {"C40-rio-backslash-at-wrap"}
+        if str(got) in ("NoMergeSource",) and _marker_ambiguous(d, from_file):
+            return {"C40-payload-marker-ambiguity"}
+        return None
+    for name, g, w in zip(FIELDS, got, want):
+        if g == w:
+            continue
+        if name in ("rid", "sha", "target", "source", "msg", "base"):
+            if w is not None and g == _cr_stripped(w):
+                used.add("C40-rio-cr-line-end")
+                continue
+            return None
+        if name == "ns":
+            if g == 0:
+                used.add("C40-subsecond-time")
+                continue
+            return None
+        if name in ("t", "tz"):
+            tz = d["tz"]
+            if tz < 0 and tz % 3600 != 0:
+                gtz = -(abs(tz) // 3600) * 3600 + ((abs(tz) // 60) % 60) * 60
+                if got[4] == gtz and got[2] == d["t"] + tz - gtz:
+                    used.add("C40-patch-date-negative-minutes")
+                    continue
+            return None
+        if name in ("patch", "bundle"):
+            if _marker_ambiguous(d, from_file):
+                used.add("C40-payload-marker-ambiguity")
+                continue
+            return None
+    return used
 
 
 def oracle(inp, obs):
@@ -518,7 +627,6 @@ def oracle(inp, obs):
             return None                      # rejected
         got, status = obs
         want = _expect_dir(d)
-        want[3] = 0
         if got[9:] == want[9:]:
             return None                      # payload unchanged (position outside, or same byte)
         if got[9] != want[9] and str(status) != "failed":
@@ -552,70 +660,38 @@ def oracle(inp, obs):
     return None
 
 
-def _value_lines(d):
-    vals = [d["rid"].decode("utf-8"), d["target"], d["base"].decode("utf-8")]
-    for key in ("sha", "source", "msg"):
-        if d[key] is not None:
-            vals.append(d[key])
-    return vals
-
-
-def _cr_at_line_end(values):
-    return any(line.endswith("\r") for v in values for line in v.split("\n"))
-
-
-def _has_backslash_long(tagged):
-    # a backslash in a value line whose escaped RIO line is longer than 68 bytes
-    for tag, v in tagged:
-        for i, line in enumerate(v.split("\n")):
-            body = ((tag + ": ") if i == 0 else "\t") + line
-            if "\\" in line and len(body.encode("utf-8").replace(b"\\", b"\\\\")) > 68:
-                return True
-    return False
-
-
-def _tagged(d):
-    out = [("revision_id", d["rid"].decode("utf-8")), ("target_branch", d["target"]),
-           ("base_revision_id", d["base"].decode("utf-8"))]
-    for key, tag in (("sha", "testament_sha1"), ("source", "source_branch"), ("msg", "message")):
-        if d[key] is not None:
-            out.append((tag, d[key]))
-    return out
-
-
-def _marker_ambiguous(d):
-    p = d["patch"]
-    if p is None:
-        return False
-    if any(l.startswith(b"# Begin bundle") for l in p.splitlines(True)):
-        return True
-    # read back from a file: the marker must start a line
-    return not (p == b"" or p.endswith(b"\n"))
-
-
 def finding_matches(fid, inp, obs, why):
+    """exact classes: a case matches a finding only if EVERY deviation it shows is the documented
+    effect of a known finding (and this finding is one of them)"""
     k = inp["k"]
-    d = inp["d"] if k == "tamper" else inp
-    if fid == "C40-rio-cr-line-end":
-        if k == "codec":
-            return _cr_at_line_end(_value_lines(d))
-        return k == "stanza" and _cr_at_line_end([v for _, v in inp["items"]])
-    if fid == "C40-rio-backslash-at-wrap":
-        if k == "codec":
-            return _has_backslash_long(_tagged(d))
-        return k == "stanza" and _has_backslash_long(inp["items"])
-    if fid == "C40-patch-date-negative-minutes":
-        o = d["tz"] if k == "codec" else inp.get("o", 0)
-        return k in ("codec", "date") and o < 0 and o % 3600 != 0
-    if fid == "C40-subsecond-time":
-        return k == "codec" and d["ns"] != 0
-    if fid == "C40-payload-marker-ambiguity":
-        return k == "codec" and _marker_ambiguous(d)
+    if k == "codec":
+        if isinstance(obs, Err):
+            return False
+        used = set()
+        for got, from_file in ((obs[1], False), (obs[2], True)):
+            u = _explain(inp, got, from_file)
+            if u is None:
+                return False
+            used |= u
+        return fid in used
+    if k == "stanza":
+        want = [[_u(t), _u(v)] for t, v in inp["items"]]
+        if isinstance(obs[1], Err):
+            return fid == "C40-rio-backslash-at-wrap" and _backslash_split(inp["items"])
+        if fid != "C40-rio-cr-line-end" or obs[1][1] != [b"rest"] or obs[1][0] is None:
+            return False
+        return obs[1][0] == [[t, _cr_stripped(v)] for t, v in want]
+    if k == "date":
+        o = inp["o"]
+        if fid != "C40-patch-date-negative-minutes" or isinstance(obs, Err) or isinstance(obs[1], Err):
+            return False
+        gtz = -(abs(o) // 3600) * 3600 + ((abs(o) // 60) % 60) * 60
+        return o < 0 and o % 3600 != 0 and obs[1] == [inp["s"] + o - gtz, gtz]
     if fid == "C40-verify-normalises-whitespace":
         if k == "verify":
             return inp["stored"] != inp["calc"] and _strip_ws(inp["stored"]) == _strip_ws(inp["calc"])
-        if k == "tamper" and not isinstance(obs, Err) and d["patch"] is not None and obs[0][9] is not None:
-            return _strip_ws(obs[0][9]) == _strip_ws(d["patch"])
+        if k == "tamper" and not isinstance(obs, Err) and inp["d"]["patch"] is not None and obs[0][9] is not None:
+            return _strip_ws(obs[0][9]) == _strip_ws(inp["d"]["patch"])
         return False
     if fid == "C40-record-name-leading-slash":
         if k != "name":
